@@ -177,3 +177,52 @@ func Harness_C14_wait_recheck() {
 		}
 	})
 }
+
+// C14 call_twice: one goroutine makes two Calls one after the other; the worker that served the first is
+// on its way out (queue empty) while the second is enqueued. Whatever the interleaving, the second
+// function is executed too (no starvation: a queued function is never left without a worker), each
+// runs exactly once, results are not mixed up, and the pool drains to zero.
+func Harness_C14_call_twice() {
+	var w Workers
+	var ran [2]int
+	var res [2]interface{}
+	var errs [2]error
+	done := false
+	go func() {
+		res[0], errs[0] = w.Call(1, func() (interface{}, error) { ran[0]++; return vtok(10), nil })
+		res[1], errs[1] = w.Call(1, func() (interface{}, error) { ran[1]++; return vtok(11), nil })
+		done = true
+	}()
+	verifFinally(func() {
+		verifAssert(done, "both_calls_return")
+		verifAssert(ran[0] == 1 && ran[1] == 1, "each_function_runs_exactly_once")
+		verifAssert(res[0] == vtok(10) && res[1] == vtok(11) && errs[0] == nil && errs[1] == nil, "caller_gets_its_own_result")
+		verifAssert(w.Count() == 0 && len(w.queue) == 0, "pool_drains_to_zero")
+		verifReach("quiescent")
+	})
+}
+
+// C14 worker_exit_vs_call: one worker is running with an empty queue (it is about to exit) while a Call
+// enqueues a function. Whatever the interleaving, the function is executed - by the departing worker if
+// it sees the item, by a freshly spawned one otherwise - and the pool drains to zero: a queued function
+// is never left without a worker.
+func Harness_C14_worker_exit_vs_call() {
+	var w Workers
+	Harness_helper_initCond(&w)
+	w.count, w.target = 1, 1
+	ran := 0
+	var res interface{}
+	var err error
+	returned := false
+	go w.worker()
+	go func() {
+		res, err = w.Call(1, func() (interface{}, error) { ran++; return vtok(9), nil })
+		returned = true
+	}()
+	verifFinally(func() {
+		verifAssert(returned, "call_returns")
+		verifAssert(ran == 1 && res == vtok(9) && err == nil, "function_runs_once_and_result_is_returned")
+		verifAssert(w.Count() == 0 && len(w.queue) == 0, "pool_drains_to_zero")
+		verifReach("quiescent")
+	})
+}
